@@ -49,6 +49,8 @@ fn repl(py_command: &str, inputs: &[Sx]) -> Sx {
     let mut cfg = ErgConfig {
         input: Input::repl(),
         quiet_repl: true,
+        // the default read timeout (10 s) fires on a loaded machine; a timeout is not what is under test
+        py_server_timeout: 300,
         ..ErgConfig::default()
     };
     if !py_command.is_empty() {
